@@ -5,6 +5,21 @@ CHECKS = {
  "C01": dict(cat="model_checking", technique="explicit-state exhaustive enumeration of the token tree per definition; reference scanner model replayed against run_inner on every node",
    text="Every definition of the conventional family x every argument vector up to the length bound is executed on the real parser and compared with a reference left-to-right scanner (accept + denoted value / reject on stderr). Exhaustive inside the bounds, so any single wrong consumption/catch decision reachable with <=3 items per level and <=3-5 tokens is found.",
    note="Trusted: the reference scanner in harness/src/conv.rs as a faithful reading of the documentation; bounds: <=3 named items per level, depth <=3, vectors <=3..5 tokens; lines in the unspecified region are executed but not judged.", ref="4/C01"),
+ "C02": dict(cat="exploration", technique="exhaustive enumeration of abstract sentences x every concrete spelling, run on the real parser, compared with the denotation",
+   text="Every abstract sentence of <=3 (item, value-bytes) occurrences is rendered in every spelling (--n v, --n=v, -n v, -n=v, -nv, aliases, every flag clustering, clusters ending in an attached short argument) for definitions over ASCII and non-ASCII names and four value types; every spelling must produce what the sentence denotes, adjacent arguments must reject exactly the two-item spellings. Exhaustive within the value alphabet, so byte/char confusions and = handling slips are found.",
+   note="Trusted: occurrence semantics in conv.rs::parse_level. Value alphabet of 14 byte strings incl. empty, '=', leading dashes, non-ASCII, invalid UTF-8, 300 bytes. Known findings F2a/F2b/F3a/F3b/F10 listed in known_findings.json.", ref="4/C02"),
+ "C03": dict(cat="exploration", technique="exhaustive metamorphic enumeration: every base vector of the token tree x every order-preserving permutation of its whole occurrences, outcomes compared on the real parser",
+   text="For each definition (shape family with alternatives, optional/repeated groups, guards, hidden items, plus the conventional family) every vector up to the length bound is segmented into whole occurrences and all permutations allowed by the property are executed; any outcome difference is a violation.",
+   note="Trusted: the segmenter (shape.rs) that decides what a whole named occurrence is; vectors that are not sequences of whole occurrences are skipped.", ref="4/C03"),
+ "C05": dict(cat="exploration", technique="exhaustive enumeration of accepted vectors (token tree) x every single-item insertion at every position; ledger of value leaves",
+   text="Accepted vectors are discovered by walking the whole token tree of each definition (shape family, conventional family, adjacent groups and adjacent commands); for each, the value leaves must equal the value items, and every insertion of an unknown flag, --flag=x, a second copy of a single-use option or a surplus word at every position must give an stderr failure.",
+   note="Ledger clause skipped for definitions with last() and below command names; surplus-word clause only when capacity is finite and full.", ref="4/C05"),
+ "C07": dict(cat="model_checking", technique="explicit-state exhaustive enumeration of the token tree per choice definition; reference model of exclusive alternatives replayed against run_inner on every node",
+   text="All choices over 2..4 alternatives of 7 kinds (bare/optional/many/some, with and without a neighbouring switch) x all vectors up to the bound; a reference model computes the touched alternatives and the expected value or failure; every node is compared.",
+   note="Unspecified region (executed, not judged): many/some over multi-item alternatives, parent switch right of a command name, attached short values.", ref="4/C07"),
+ "C19": dict(cat="model_checking", technique="explicit-state exhaustive enumeration of the token tree per adjacent-group definition; block-scanner reference model replayed against run_inner on every node",
+   text="135 adjacent group definitions (5 group shapes x bare/optional/many x trailing positional x neighbouring switch) x all vectors up to 5-7 tokens; a block scanner (leading flag + contiguous members) gives the expected value or failure for every node.",
+   note="Trusted: block scanner in checks/c19.rs. Alphabets of 6-8 tokens include foreign items and `--`.", ref="4/C19"),
 }
 NOT_YET = {}
 def main():
